@@ -502,6 +502,10 @@ class Exec:
             model = self.sym_models.get(key)
             if model is None:
                 # exception attributes
+                if attr == 'with_traceback':
+                    # BaseException.with_traceback(tb): sets __traceback__ and returns the exception itself
+                    from .models import Fn
+                    return [('ok', st, Fn(lambda e, s, a, k, n, b=base: [('ok', s, b)], name='with_traceback'))]
                 if attr == 'code':
                     return [('ok', st, ecode(base))]
                 if attr == 'args':
@@ -1074,6 +1078,9 @@ class Exec:
             raise Unsupported('too many positional args in inlined call')
         for p, v in zip(params, args):
             s.env[p] = v
+        if a.vararg is not None:
+            extra = list(args[len(params):])
+            s.env[a.vararg.arg] = extra[0] if len(extra) == 1 and isinstance(extra[0], StarPack) else PyTuple(extra)
         kwargs = dict(kwargs)
         pack = kwargs.pop('**', None)
         for p in params[len(args):] + [k.arg for k in a.kwonlyargs]:
